@@ -82,6 +82,12 @@ where
     T: Hash + Eq + Clone + Ord + Display + Send + Sync,
     A: Clone + Send + Sync,
 {
+    if weighted && graph.get_all_edges().iter().any(|e| e.weight < 0.0) {
+        return Err(Error {
+            kind: ErrorKind::InvalidArgument,
+            message: "Louvain community detection requires non-negative edge weights".to_string(),
+        });
+    }
     let _threshold = threshold.unwrap_or(0.0000001);
     let node_map = graph
         .get_all_nodes()
